@@ -56,9 +56,27 @@ structure State where
   defaultUnion : Bool
   isDataset : Bool           -- `Dataset`: graphs()/contexts() re-create the default graph
   dname : GName              -- identifier of the default context
+  ns : List Nat              -- namespaces that have a prefix in the store's prefix tables
+                             -- (`NamespaceManager.bind` → `store.bind`); OUTSIDE the property's statement
   deriving DecidableEq, Repr
 
-/-! ### store writes (the only two ways the model changes a `State`) -/
+/-! ### store writes (the only ways the model changes a `State`): `add`, `register` on the quad side,
+      `bindNs` on the prefix tables -/
+
+/-- `NamespaceManager.bind(prefix, namespace)` → `store.bind`: the namespace gets a prefix -/
+def State.bindNs (s : State) (n : Nat) : State :=
+  { s with ns := sinsert s.ns n }
+
+/-- `TurtleSerializer.getQName(uri, gen_prefix)` → `self.store.compute_qname(uri, generate=gen_prefix)`:
+    `nsOf term` = the namespace of an IRI that can be split (`none`: not an IRI / not splittable →
+    `compute_qname` raises, the `except` branch only READS `store.prefix`).  With `generate=True` a namespace
+    without prefix gets a generated one (`ns1`, …) BOUND in the graph's namespace manager; with
+    `generate=False` an unknown namespace raises `KeyError` and nothing is bound. -/
+def State.getQName (s : State) (nsOf : Nat → Option Nat) (gen : Bool) (term : Nat) : State :=
+  match nsOf term with
+  | none => s
+  | some n => if gen then s.bindNs n else s
+
 
 /-- `Memory.add(triple, context)`: index the quad and `__all_contexts.add(context)` -/
 def State.add (s : State) (q : Quad) : State :=
@@ -88,6 +106,14 @@ def unionTriples : List Quad → List Triple
 def tagWith (g : GName) : List Triple → List Quad
   | [] => []
   | t :: ts => (t, g) :: tagWith g ts
+
+/-- `scratch += triples` on a scratch graph with its own store -/
+def unionInto (acc : List Triple) : List Triple → List Triple
+  | [] => acc
+  | t :: ts => unionInto (sinsert acc t) ts
+
+/-- an empty scratch `Dataset()` with its own store (QueryContext.__init__ with a dataset clause, patch `_diff`) -/
+def emptyDataset : State := ⟨[], [], false, true, .dflt, []⟩
 
 /-- what `top.triples((None, None, None))` iterates: the union, or the default graph -/
 def State.visible (s : State) : List Triple :=
@@ -201,44 +227,116 @@ def blocksOf (qs : List Quad) : List GName → List (GName × List Triple)
   | [] => []
   | g :: gs => (g, triplesOf qs g) :: blocksOf qs gs
 
-/-- nt / turtle / n3 / rdf-xml / …: iterate `self.store.triples((None, None, None))` -/
+/-- nt / nt11: `for triple in self.store` -/
 def State.serializeFlat (s : State) : State × Out := (s, .triples s.visible)
 
-/-- nquads / trix / hext: `store.contexts()` then one block per context (hext also appends a
-    truthy default context; a repeated block prints the same quads again) -/
+/-- `RecursiveSerializer.preprocess` / `TurtleSerializer.preprocessTriple` over the triples of `self.store`:
+    `getQName(node, gen_prefix=(i == VERB))` for subject, predicate, object — the only calls on `self.store`
+    that are not reads.  The later writing pass (`label` → `getQName(node, position == VERB)`) repeats them. -/
+def preprocessTriples (nsOf : Nat → Option Nat) : State → List Triple → State
+  | s, [] => s
+  | s, t :: ts =>
+    preprocessTriples nsOf
+      (((s.getQName nsOf false t.1).getQName nsOf true t.2.1).getQName nsOf false t.2.2) ts
+
+/-- turtle / n3: `preprocess` then the statement-writing pass, both over `self.store.triples(...)`;
+    everything else the serializer writes (`_references`, `_subjects`, `namespaces`, `_ns_rewrite`, `stream`) is its own. -/
+def State.serializeTurtle (s : State) (nsOf : Nat → Option Nat) : State × Out :=
+  (preprocessTriples nsOf (preprocessTriples nsOf s s.visible) s.visible, .triples s.visible)
+
+/-- longturtle: with `canon=True`, `canonize()` builds `to_canonical_graph(self.store)` (a copy), serialises it to
+    N-Triples, parses the sorted lines into a scratch `Graph()`, de-skolemises into another scratch graph and
+    RE-POINTS `self.store` at it — but gives it the ORIGINAL graph's `namespace_manager`, so the prefix bindings of
+    the two passes still land in the original's prefix tables.  `canonf` = relabelling + sorting of the copy. -/
+def State.serializeLongTurtle (s : State) (nsOf : Nat → Option Nat) (canon : Bool)
+    (canonf : List Triple → List Triple) : State × Out :=
+  let content := if canon then unionInto [] (canonf s.visible) else s.visible
+  (preprocessTriples nsOf (preprocessTriples nsOf s content) content, .triples content)
+
+/-- rdf/xml `XMLSerializer.__bindings` and `predicate()`: `nm.compute_qname_strict(predicate)` /
+    `nm.qname_strict(predicate)` with `generate=True` for every predicate -/
+def bindPredicates (nsOf : Nat → Option Nat) : State → List Triple → State
+  | s, [] => s
+  | s, t :: ts => bindPredicates nsOf (s.getQName nsOf true t.2.1) ts
+
+def State.serializeXml (s : State) (nsOf : Nat → Option Nat) : State × Out :=
+  (bindPredicates nsOf (bindPredicates nsOf s s.visible) s.visible, .triples s.visible)
+
+/-- pretty-xml additionally computes qnames for the objects of `rdf:type` (`rdfType` = its term id) -/
+def bindTypes (nsOf : Nat → Option Nat) (rdfType : Nat) : State → List Triple → State
+  | s, [] => s
+  | s, t :: ts =>
+    if t.2.1 = rdfType then bindTypes nsOf rdfType (s.getQName nsOf true t.2.2) ts
+    else bindTypes nsOf rdfType s ts
+
+/-- `PrettyXMLSerializer.subject/predicate`: nested writing of objects up to `max_depth`, each subject once
+    (`self.__serialized`); `fuel` = `max_depth`.  Reads `store.predicate_objects/value/triples` only. -/
+def prettyWalk (ts : List Triple) : Nat → List Nat → List Nat → List Triple → List Nat × List Triple
+  | 0, _, done, acc => (done, acc)
+  | fuel + 1, frontier, done, acc =>
+    let todo := frontier.filter (fun n => !done.contains n)
+    let new := ts.filter (fun t => todo.contains t.1)
+    prettyWalk ts fuel (new.map (·.2.2)) (done ++ todo) (acc ++ new)
+
+def subjectsOf : List Triple → List Nat
+  | [] => []
+  | t :: ts => sinsert (subjectsOf ts) t.1
+
+def State.serializePrettyXml (s : State) (nsOf : Nat → Option Nat) (rdfType maxDepth : Nat) : State × Out :=
+  (bindTypes nsOf rdfType (bindPredicates nsOf s s.visible) s.visible,
+   .triples (prettyWalk s.visible (maxDepth + 1) (subjectsOf s.visible) [] []).2)
+
+/-- nquads / trix / hext: `store.contexts()` then one block per context (hext also appends a truthy default
+    context; a repeated block prints the same quads again).  TriX hands `store.namespace_manager` to its
+    `XMLWriter`, which only reads `namespaces()` for the TriX element names. -/
 def State.serializeCtxs (s : State) : State × Out :=
   (s.contextsCall.1, .blocks (blocksOf s.contextsCall.1.quads s.contextsCall.2))
 
+/-- patch with `operation=add|remove`: `self.store.contexts()` and, per context, `self.store.get_context(id)`
+    (a new Graph object on the same store) -/
+def State.serializePatch (s : State) : State × Out :=
+  (s.contextsCall.1, .blocks (blocksOf s.contextsCall.1.quads s.contextsCall.2))
+
+def quadDiff (a b : List Quad) : List Quad := a.filter (fun q => !b.contains q)
+
+/-- patch with `target=<other dataset>`: `_diff` reads `quads()` of both datasets and fills two SCRATCH
+    `Dataset()`s with `addN`; their `contexts()` (which register the scratch datasets' default graphs) are written out -/
+def State.serializePatchTarget (s : State) (target : List Quad) : State × Out :=
+  let toAdd := emptyDataset.addAll (quadDiff target s.quads)
+  let toRemove := emptyDataset.addAll (quadDiff s.quads target)
+  (s, .blocks (blocksOf toAdd.contextsCall.1.quads toAdd.contextsCall.2
+               ++ blocksOf toRemove.contextsCall.1.quads toRemove.contextsCall.2))
+
 /-- the TriG serializer object: `self.store` is re-pointed at each non-empty context while
-    pre-processing; `_contexts` collects what will be written.  Nothing is written to the dataset. -/
+    pre-processing; `_contexts` collects what will be written.  The only calls that are not reads are the
+    `getQName`s of `preprocessTriple` (on the context, which shares the store's prefix tables). -/
 structure TrigSer where
   store : Option GName                 -- `self.store`: `none` = the dataset handed to the constructor
   contexts : List (GName × List Triple)
 
-def trigPreprocess (qs : List Quad) (ser : TrigSer) : List GName → TrigSer
-  | [] => ser
-  | g :: gs =>
-    if (triplesOf qs g).isEmpty then trigPreprocess qs ser gs
-    else if g ∈ ser.contexts.map (·.1) then trigPreprocess qs { ser with store := some g } gs
-    else trigPreprocess qs { store := some g, contexts := ser.contexts ++ [(g, triplesOf qs g)] } gs
+def trigPreprocess (nsOf : Nat → Option Nat) : State → TrigSer → List GName → State × TrigSer
+  | st, ser, [] => (st, ser)
+  | st, ser, g :: gs =>
+    if (triplesOf st.quads g).isEmpty then trigPreprocess nsOf st ser gs
+    else if g ∈ ser.contexts.map (·.1) then
+      trigPreprocess nsOf (preprocessTriples nsOf st (triplesOf st.quads g)) { ser with store := some g } gs
+    else
+      trigPreprocess nsOf (preprocessTriples nsOf st (triplesOf st.quads g))
+        { store := some g, contexts := ser.contexts ++ [(g, triplesOf st.quads g)] } gs
 
 /-- `self.contexts = list(store.contexts())` plus the default context when it is truthy (non-empty) -/
 def trigContexts (s1 : State) (cs : List GName) : List GName :=
   if (triplesOf s1.quads s1.dname).isEmpty then cs else cs ++ [s1.dname]
 
-def State.serializeTrig (s : State) : State × Out :=
-  (s.contextsCall.1,
-   .blocks (trigPreprocess s.contextsCall.1.quads ⟨none, []⟩ (trigContexts s.contextsCall.1 s.contextsCall.2)).contexts)
+def State.serializeTrig (s : State) (nsOf : Nat → Option Nat) : State × Out :=
+  let r := trigPreprocess nsOf s.contextsCall.1 ⟨none, []⟩ (trigContexts s.contextsCall.1 s.contextsCall.2)
+  (r.1, .blocks r.2.contexts)
 
 /-- JSON-LD `Converter.convert` accumulator -/
 structure JAcc where
   self : State                 -- the dataset being serialised
   scratch : List Triple        -- the default graph of the OUTPUT
   named : List GName           -- `graphs[1:]`
-
-def unionInto (acc : List Triple) : List Triple → List Triple
-  | [] => acc
-  | t :: ts => unionInto (sinsert acc t) ts
 
 /-- `has_dataset_default_id and graph.default_context.identifier == DATASET_DEFAULT_GRAPH_ID` -/
 def State.jsonldOwnDefault (s : State) (cs : List GName) : Bool :=
@@ -293,6 +391,50 @@ structure View where
   dflt : List Triple
   named : List (GName × List Triple)
 
+/-- the fresh `Graph()` that `evalConstructQuery` / `evalDescribeQuery` fill and return -/
+structure ResultGraph where
+  triples : List Triple
+  ns : List Nat
+
+def cbdStep (ts : List Triple) (isBlank : Nat → Bool) (frontier : List Nat) (acc : List Triple) :
+    List Nat × List Triple :=
+  let new := ts.filter (fun t => frontier.contains t.1 && !acc.contains t)
+  ((new.filter (fun t => isBlank t.2.2)).map (·.2.2), acc ++ new)
+
+/-- `Graph.cbd(resource, target_graph=subgraph)`: `subgraph.add(...)` for the description of `resource`
+    and, recursively, of the blank nodes it reaches; `self` is only read -/
+def cbdLoop (ts : List Triple) (isBlank : Nat → Bool) : Nat → List Nat → List Triple → List Triple
+  | 0, _, acc => acc
+  | n + 1, fr, acc => cbdLoop ts isBlank n (cbdStep ts isBlank fr acc).1 (cbdStep ts isBlank fr acc).2
+
+inductive QKind
+  | select
+  | ask
+  | construct (template : List Nat → List Triple)   -- `graph = Graph(); graph += _fillTemplate(template, c)`
+  | describe (isBlank : Nat → Bool)                  -- `graph = Graph(); graph.bind(pfx, ns) …; ctx.graph.cbd(r, target_graph=graph)`
+
+def fillConstruct (template : List Nat → List Triple) (rg : ResultGraph) : List (List Nat) → ResultGraph
+  | [] => rg
+  | r :: rs => fillConstruct template { rg with triples := unionInto rg.triples (template r) } rs
+
+def describeAll (active : List Triple) (isBlank : Nat → Bool) (rg : ResultGraph) : List Nat → ResultGraph
+  | [] => rg
+  | r :: rs =>
+    describeAll active isBlank { rg with triples := cbdLoop active isBlank active.length [r] rg.triples } rs
+
+def flattenRows : List (List Nat) → List Nat
+  | [] => []
+  | r :: rs => r ++ flattenRows rs
+
+/-- turn the solutions into the answer; CONSTRUCT / DESCRIBE write into a FRESH result graph (DESCRIBE first
+    copies the queried graph's prefix bindings INTO the fresh graph: a read of `srcNs`) -/
+def QKind.finish (k : QKind) (active : List Triple) (srcNs : List Nat) (rows : List (List Nat)) : Out :=
+  match k with
+  | .select => .rows rows
+  | .ask => .bool !rows.isEmpty
+  | .construct tpl => .triples (fillConstruct tpl ⟨[], []⟩ rows).triples
+  | .describe isBlank => .triples (describeAll active isBlank ⟨[], srcNs⟩ (flattenRows rows)).triples
+
 /-- one entry of the dataset clause, in query order -/
 inductive Clause
   | dflt (g : GName)      -- FROM <g>
@@ -305,13 +447,13 @@ inductive Clause
     `loadGraphs` = `rdflib.plugins.sparql.SPARQL_LOAD_GRAPHS`. -/
 structure QShape where
   clauses : List Clause
-  graphVar : Bool                       -- `GRAPH ?g { … }`: evalGraph calls `ctx.dataset.contexts()`
+  graphVar : Bool                       -- `GRAPH ?g { … }`: evalGraph calls `ctx.dataset.contexts()`, then
+                                        -- `ctx.pushGraph(graph)` per context (a CLONE of the context object)
+  graphConsts : List GName              -- `GRAPH <g> { … }`: `ctx.pushGraph(ctx.dataset.get_context(g))`
   loadGraphs : Bool
   docs : GName → Option (List Triple)
   body : View → List (List Nat)
-
-/-- an empty scratch `Dataset()` (QueryContext.__init__ with a dataset clause) -/
-def emptyDataset : State := ⟨[], [], false, true, .dflt⟩
+  kind : QKind
 
 /-- the query context built for a dataset clause: `self.graph = Graph()`, `self._dataset = Dataset()` —
     both FRESH objects with their own stores -/
@@ -355,20 +497,27 @@ def qInit (src : State) (loadGraphs : Bool) (docs : GName → Option (List Tripl
 def namedBlocks (st : State) (cs : List GName) : List (GName × List Triple) :=
   blocksOf st.quads (cs.filter (fun g => g ≠ st.dname))
 
+/-- the view `body` evaluates over and the finishing step -/
+def QShape.answer (q : QShape) (active : List Triple) (named : List (GName × List Triple)) (srcNs : List Nat) : Out :=
+  q.kind.finish active srcNs (q.body ⟨active, named⟩)
+
 def State.query (s : State) (q : QShape) : State × Out :=
   if q.clauses.isEmpty then
     -- `self._dataset = graph`: the query runs on the dataset itself
     if q.graphVar then
-      (s.contextsCall.1, .rows (q.body ⟨s.contextsCall.1.visible, namedBlocks s.contextsCall.1 s.contextsCall.2⟩))
-    else (s, .rows (q.body ⟨s.visible, []⟩))
+      (s.contextsCall.1,
+       q.answer s.contextsCall.1.visible
+         (namedBlocks s.contextsCall.1 s.contextsCall.2 ++ blocksOf s.contextsCall.1.quads q.graphConsts) s.ns)
+    else (s, q.answer s.visible (blocksOf s.quads q.graphConsts) s.ns)
   else
     -- `self._dataset = Dataset(); self.graph = Graph()`: everything is copied / loaded into scratch objects
     match qInit s q.loadGraphs q.docs ⟨[], emptyDataset⟩ q.clauses with
     | none => (s, .err)                                          -- "Could not load …"
     | some c =>
       if q.graphVar then
-        (s, .rows (q.body ⟨c.graph, namedBlocks c.ds.contextsCall.1 c.ds.contextsCall.2⟩))
-      else (s, .rows (q.body ⟨c.graph, []⟩))
+        (s, q.answer c.graph
+              (namedBlocks c.ds.contextsCall.1 c.ds.contextsCall.2 ++ blocksOf c.ds.quads q.graphConsts) [])
+      else (s, q.answer c.graph (blocksOf c.ds.quads q.graphConsts) [])
 
 /-! ### property paths (seen-set traversal over the active graph; a function of its triples) -/
 
@@ -403,25 +552,18 @@ def evalPath (ts : List Triple) : Path → List (Nat × Nat)
   | .star a => closure (evalPath ts a) (nodesOf ts).length ((nodesOf ts).map (fun n => (n, n)))
   | .neg p => (ts.filter (fun t => t.2.1 != p)).map (fun t => (t.1, t.2.2))
 
-/-! ### concise bounded description into a fresh graph -/
-
-def cbdStep (ts : List Triple) (isBlank : Nat → Bool) (frontier : List Nat) (acc : List Triple) :
-    List Nat × List Triple :=
-  let new := ts.filter (fun t => frontier.contains t.1 && !acc.contains t)
-  ((new.filter (fun t => isBlank t.2.2)).map (·.2.2), acc ++ new)
-
-def cbdLoop (ts : List Triple) (isBlank : Nat → Bool) : Nat → List Nat → List Triple → List Triple
-  | 0, _, acc => acc
-  | n + 1, fr, acc =>
-    let (fr', acc') := cbdStep ts isBlank fr acc
-    cbdLoop ts isBlank n fr' acc'
-
 /-! ### the read operations -/
 
 inductive ReadOp
-  | serializeFlat                       -- nt, nt11, turtle, longturtle, n3, xml, pretty-xml, patch
-  | serializeCtxs                       -- nquads, trix, hext
-  | serializeTrig
+  | serializeFlat                                          -- nt, nt11
+  | serializeTurtle (nsOf : Nat → Option Nat)              -- turtle, n3
+  | serializeLongTurtle (nsOf : Nat → Option Nat) (canon : Bool) (canonf : List Triple → List Triple)
+  | serializeXml (nsOf : Nat → Option Nat)                 -- xml
+  | serializePrettyXml (nsOf : Nat → Option Nat) (rdfType maxDepth : Nat)
+  | serializeCtxs                                          -- nquads, trix, hext
+  | serializePatch                                         -- patch, operation = add | remove
+  | serializePatchTarget (target : List Quad)              -- patch, target = another dataset
+  | serializeTrig (nsOf : Nat → Option Nat)
   | serializeJsonld
   | graphs                              -- Dataset.graphs() / contexts() / get_graph
   | iter                                -- iteration, all_nodes, connected, …
@@ -435,14 +577,31 @@ inductive ReadOp
   | query (q : QShape)                  -- SELECT / ASK / CONSTRUCT / DESCRIBE
   | path (p : Path)
   | cbd (node : Nat) (isBlank : Nat → Bool)
-  | isomorphic (g1 g2 : GName) (digest : List Triple → Nat)      -- compare.isomorphic / to_isomorphic
+  | isomorphic (g1 g2 : GName) (digest : List Triple → Nat)      -- compare.isomorphic / to_isomorphic / Graph.isomorphic
   | canonical (g : GName) (canon : List Triple → List Triple)     -- to_canonical_graph
   | diff (g1 g2 : GName) (canon : List Triple → List Triple)      -- graph_diff
+  | skolemize (sk : Nat → Nat)          -- Graph.skolemize(new_graph=None) / de_skolemize(): `retval = Graph()`
+  | qname (nsOf : Nat → Option Nat) (term : Nat)                  -- Graph.qname / compute_qname / Resource.qname
+
+def skolemizeTriples (sk : Nat → Nat) : List Triple → List Triple
+  | [] => []
+  | t :: ts => (sk t.1, t.2.1, sk t.2.2) :: skolemizeTriples sk ts
+
+/-- `g.skolemize(new_graph=h)` with `h` a graph of THIS store: the skolemized copy is added to `h` — a write
+    by construction (the caller names the target); not a `ReadOp` -/
+def State.skolemizeInto (s : State) (h : GName) (sk : Nat → Nat) : State :=
+  s.addAll (tagWith h (skolemizeTriples sk s.visible))
 
 def State.run (s : State) : ReadOp → State × Out
   | .serializeFlat => s.serializeFlat
+  | .serializeTurtle nsOf => s.serializeTurtle nsOf
+  | .serializeLongTurtle nsOf canon canonf => s.serializeLongTurtle nsOf canon canonf
+  | .serializeXml nsOf => s.serializeXml nsOf
+  | .serializePrettyXml nsOf ty d => s.serializePrettyXml nsOf ty d
   | .serializeCtxs => s.serializeCtxs
-  | .serializeTrig => s.serializeTrig
+  | .serializePatch => s.serializePatch
+  | .serializePatchTarget target => s.serializePatchTarget target
+  | .serializeTrig nsOf => s.serializeTrig nsOf
   | .serializeJsonld => s.serializeJsonld
   | .graphs => (s.contextsCall.1, .names s.contextsCall.2)
   | .iter => (s, .triples s.visible)
@@ -455,16 +614,30 @@ def State.run (s : State) : ReadOp → State × Out
   | .quads4 pat c => s.readQuads4 pat c
   | .query q => s.query q
   | .path p => (s, .pairs (evalPath s.visible p))
-  | .cbd n isBlank => (s, .triples (cbdLoop s.visible isBlank s.visible.length [n] []))
+  | .cbd n isBlank => (s, .triples (cbdLoop s.visible isBlank s.visible.length [n] []))   -- `subgraph = Graph()`
   | .isomorphic g1 g2 digest =>
-    -- both arguments are copied / hashed outside the store
+    -- both arguments are copied (`IsomorphicGraph() += graph`) / hashed outside the store
     (s, .bool (digest (unionInto [] (triplesOf s.quads g1)) == digest (unionInto [] (triplesOf s.quads g2))))
   | .canonical g canon => (s, .triples (unionInto [] (canon (triplesOf s.quads g))))
   | .diff g1 g2 canon =>
-    let c1 := unionInto [] (canon (triplesOf s.quads g1))
-    let c2 := unionInto [] (canon (triplesOf s.quads g2))
-    (s, .blocks [(.iri 0, c1.filter (fun t => c2.contains t)), (.iri 1, c1.filter (fun t => !c2.contains t)),
-                 (.iri 2, c2.filter (fun t => !c1.contains t))])
+    (s, .blocks [(.iri 0, (unionInto [] (canon (triplesOf s.quads g1))).filter
+                    (fun t => (unionInto [] (canon (triplesOf s.quads g2))).contains t)),
+                 (.iri 1, (unionInto [] (canon (triplesOf s.quads g1))).filter
+                    (fun t => !(unionInto [] (canon (triplesOf s.quads g2))).contains t)),
+                 (.iri 2, (unionInto [] (canon (triplesOf s.quads g2))).filter
+                    (fun t => !(unionInto [] (canon (triplesOf s.quads g1))).contains t))])
+  | .skolemize sk => (s, .triples (unionInto [] (skolemizeTriples sk s.visible)))
+  | .qname nsOf term => (s.getQName nsOf true term, .nat term)
+
+/-- exactly the reads that may add prefix bindings -/
+def ReadOp.mayBind : ReadOp → Bool
+  | .serializeTurtle _ => true
+  | .serializeLongTurtle _ _ _ => true
+  | .serializeXml _ => true
+  | .serializePrettyXml _ _ _ => true
+  | .serializeTrig _ => true
+  | .qname _ _ => true
+  | _ => false
 
 /-- any sequence of reads -/
 def State.runAll (s : State) : List ReadOp → State
